@@ -6,7 +6,7 @@ import ast
 from ..core import AnalysisError, AnchorMissing, Program
 from ..report import Collector
 from ..terms import is_call_to, is_global, subterms
-from .common import fterms, has_subterm, short
+from .common import fterms, has_subterm, short, yield_streams
 
 P = "incomplete_cooperative."
 SELF = ("param", "self")
@@ -202,13 +202,16 @@ def rule_known_coalitions(prog: Program, col: Collector) -> None:
               necessity="the starting knowledge handed to every search task")
     ref = prog.func("coalitions.minimal_game_coalitions")
     ft = fterms(prog, ref)
-    ys = list(ft.of_kind("yield"))
-    vals = [y.value for y in ys]
+    ys = yield_streams(ft)          # `yield from (f(i) for i in r)` and `for i in r: yield f(i)` are one stream
+    vals = [v for v, _ in ys]
     has_empty = any(is_call_to(v, P + "coalitions.Coalition") and v[2] == (("const", 0),) for v in vals)
     has_grand = any(is_call_to(v, P + "coalitions.grand_coalition") for v in vals)
     has_single = any(v[0] == "comp" and is_call_to(v[3][0][1], "range") and
                      (v[2] == ("call", ("global", P + "coalitions.Coalition.from_players"), (("list", (v[3][0][0],)),), ()) or
                       v[2] == ("call", ("global", P + "coalitions.player_to_coalition"), (v[3][0][0],), ())) for v in vals)
+    if any(v[0] == "unknown" for v in vals):
+        col.undecidable(ref.where(), ref.short, "minimal_game_coalitions yields under a construct that is not a plain for / if", rule="KC")
+        return
     col.check(has_empty and has_grand and has_single and len(ys) == 3, ref.where(), ref.short, "minimal information = {empty, grand} + all singletons",
               construct="minimal-coalitions", necessity="every computer asserts these are known")
 
